@@ -7,8 +7,11 @@ for d in $dirs; do
   d=${d%/}; id=$(basename $d); prop=${id%%-*}
   git -C /repo diff --quiet || { echo "/repo not clean"; exit 3; }
   git -C /repo apply "$PWD/$d/patch.diff" || { echo "$id patch does not apply"; continue; }
+  # evidence files are rewritten by every run: keep the one from the unchanged tree and put it back afterwards
+  mkdir -p .cache/ev_keep; cp -f evidence/$prop.json .cache/ev_keep/ 2>/dev/null
   out=$(./check $prop --tier quick 2>&1); rc=$?
   git -C /repo checkout -- .
+  [ -f .cache/ev_keep/$prop.json ] && cp -f .cache/ev_keep/$prop.json evidence/$prop.json
   v=$(echo "$out" | grep -c "^VIOLATION")
   ob=$(echo "$out" | grep "^VIOLATION" | sed 's/.*obligation=//' | sort -u | tr '\n' ' ')
   case $rc in 1) r=CAUGHT;; 2) r=UNDECIDED;; 0) r=MISSED;; *) r="rc=$rc";; esac
